@@ -147,11 +147,14 @@ type edge struct {
 	held           lockset
 	kind           string // call | go | callback | defer
 	line           int
+	recvFresh      bool // method call on an object created in the calling function
+	recvSame       bool // method call on the caller's own receiver
 }
 
 type rawSite struct {
 	Site
-	held lockset
+	held   lockset
+	onRecv bool // the access goes through the receiver of the enclosing method
 }
 
 type pkgWalker struct {
@@ -172,6 +175,7 @@ type pkgWalker struct {
 	order    []string
 
 	fn      string
+	recvObj types.Object // receiver of the declared method being walked
 	fresh   map[types.Object]bool
 	acc     []*lockset // accumulators of the enclosing loops / switches for break and continue
 	accLoop []bool     // whether the accumulator belongs to a loop
@@ -321,10 +325,15 @@ func (w *pkgWalker) record(sel *ast.SelectorExpr, kind string, held lockset) {
 		return
 	}
 	file, line := w.rel(sel.Sel.Pos())
-	fresh := false
+	fresh, onRecv := false, false
 	if id := rootIdent(sel.X); id != nil {
-		if obj := w.info.Uses[id]; obj != nil && w.fresh[obj] {
-			fresh = true
+		if obj := w.info.Uses[id]; obj != nil {
+			if w.fresh[obj] {
+				fresh = true
+			}
+			if w.recvObj != nil && obj == w.recvObj {
+				onRecv = true
+			}
 		}
 	}
 	key := fmt.Sprintf("%s:%d:%d:%s:%s", file, line, w.fset.Position(sel.Sel.Pos()).Column, fi.Name, kind)
@@ -332,13 +341,13 @@ func (w *pkgWalker) record(sel *ast.SelectorExpr, kind string, held lockset) {
 		old.held = old.held.inter(held) // re-walk of a loop body
 		return
 	}
-	w.sites[key] = &rawSite{Site: Site{Pkg: w.pkg, File: file, Line: line, Fn: w.fn, Field: fi.Name, Kind: kind, Fresh: fresh}, held: held}
+	w.sites[key] = &rawSite{Site: Site{Pkg: w.pkg, File: file, Line: line, Fn: w.fn, Field: fi.Name, Kind: kind, Fresh: fresh}, held: held, onRecv: onRecv}
 	w.order = append(w.order, key)
 }
 
 func (w *pkgWalker) addEdge(callee string, held lockset, kind string, pos token.Pos) {
 	_, line := w.rel(pos)
-	w.edges = append(w.edges, edge{w.fn, callee, held, kind, line})
+	w.edges = append(w.edges, edge{caller: w.fn, callee: callee, held: held, kind: kind, line: line})
 }
 
 // walkLit walks a function literal as a function of its own and returns its key.
@@ -428,6 +437,13 @@ func (w *pkgWalker) scan(n ast.Node, held lockset, written map[ast.Expr]bool) {
 							}
 						} else {
 							w.addEdge(funcKey(fn), held, "call", x.Pos())
+							if id, ok := f.X.(*ast.Ident); ok {
+								if obj := w.info.Uses[id]; obj != nil {
+									e := &w.edges[len(w.edges)-1]
+									e.recvFresh = w.fresh[obj]
+									e.recvSame = w.recvObj != nil && obj == w.recvObj
+								}
+							}
 						}
 					case types.FieldVal:
 						w.indirect = append(w.indirect, edge{caller: w.fn, held: held, kind: "call"})
@@ -1008,13 +1024,17 @@ func analyzePkg(repo, dir, pkg string, structs []string, t *Table) error {
 	}
 	for _, d := range decls {
 		w.fn, w.acc, w.accLoop, w.fresh = d.key, nil, nil, map[types.Object]bool{}
+		w.recvObj = nil
+		if d.fd.Recv != nil && len(d.fd.Recv.List) == 1 && len(d.fd.Recv.List[0].Names) == 1 {
+			w.recvObj = info.Defs[d.fd.Recv.List[0].Names[0]]
+		}
 		w.block(d.fd.Body.List, lockset{})
 	}
 	// calls through function values go to every function whose value is taken (same arity)
 	for i, e := range w.indirect {
 		for k := range w.taken {
 			if w.arity[k] == w.indArity[i] {
-				w.edges = append(w.edges, edge{e.caller, k, e.held, "call", 0})
+				w.edges = append(w.edges, edge{caller: e.caller, callee: k, held: e.held, kind: "call"})
 			}
 		}
 	}
@@ -1106,6 +1126,44 @@ func analyzePkg(repo, dir, pkg string, structs []string, t *Table) error {
 			}
 		}
 	}
+	// init-only methods: unexported, value never taken, never a go / defer / callback target, and every
+	// call is a method call on an object created in the calling function (constructor) or on the receiver
+	// of a caller that is itself init-only.  Their accesses through the receiver happen before the
+	// constructor publishes the object, like the constructor's own (rows marked fresh).
+	initOnly := map[string]bool{}
+	for changed := true; changed; {
+		changed = false
+		for f, es := range in {
+			if initOnly[f] || w.exported[f] || w.taken[f] || strings.Contains(f, "$") || len(es) == 0 {
+				continue
+			}
+			ok := true
+			for _, e := range es {
+				if e.kind != "call" || strings.Contains(e.caller, "$") || !(e.recvFresh || (e.recvSame && initOnly[e.caller])) {
+					ok = false
+					break
+				}
+			}
+			if ok {
+				initOnly[f] = true
+				changed = true
+			}
+		}
+	}
+	nInit := 0
+	for _, k := range w.order {
+		s := w.sites[k]
+		if initOnly[s.Fn] && s.onRecv && !s.Fresh {
+			s.Fresh = true
+			nInit++
+		}
+	}
+	var initFns []string
+	for f := range initOnly {
+		initFns = append(initFns, f)
+	}
+	sort.Strings(initFns)
+	t.Notes = append(t.Notes, fmt.Sprintf("%s: init-only methods (called only on objects under construction): %s; %d of their sites marked fresh", pkg, strings.Join(initFns, " "), nInit))
 	for _, k := range w.order {
 		s := w.sites[k]
 		h := s.held.union(eff[s.Fn])
